@@ -33,8 +33,9 @@ MANIFEST = dict(
           "(absent, empty-string, numeric, bool keys), rows partition the events, Merge commutative, buckets partition the time line "
           "for spans dividing and not dividing the range and for align times before, inside and after the data (bin aligntime=, floor of a negative quotient). Gen_Aggregations exports each complete behaviour; checks/c04.py ingests the "
           "dataset with that segmentation through sigdrv and compares measure[].MeasureVal/GroupByValues of the real responses."),
-    note=("Bounds: 3 events (4 in thorough) per dataset, measure values {3,-2,0,1.5,-0.75,'2','zz',absent}, 6 group keys, timestamps "
-          "around bucket boundaries. All numbers are binary-exact so the 1e-9 tolerance for float sums is never needed; percentiles, "
+    note=("Bounds: 3 events (4 in thorough) per dataset, measure values {3,-2,0,1.5,-0.75,'2','zz',absent} plus a string-typed family "
+          "{'1.14','1.36','0.1','2.675','2', look-alikes '-' '+' '.' 'e5' '0x10', absent} with respellings, 6 group keys, timestamps "
+          "around bucket boundaries. min/max/values are compared bit-exactly, sums within 1e-9; percentiles, "
           "var/stdev (unsupported in stats), large-cardinality dc (sketch error) and multi-column group-by are not modelled. "
           "Bool measure values are excluded. Which path (segment stats / agile tree / raw) the engine took is not observed, only forced "
           "by configuration."),
@@ -567,7 +568,7 @@ def run(chk):
     chk.cov["model_sensitivity"] = sens
 
     # sample DATASETS; each is replayed with the one-part segmentation and with other segmentations of the same dataset
-    n = {"agg": 42, "group": 30, "bucket": 16, "numstr": 36} if quick else {"agg": 512, "group": 500, "bucket": 343, "numstr": 400}
+    n = {"agg": 42, "group": 30, "bucket": 16, "numstr": 36} if quick else {"agg": 512, "group": 500, "bucket": 343, "numstr": 250}
     per_ds = 2 if quick else 4
     cases = []
     rnd = random.Random(chk.seed)
@@ -650,7 +651,7 @@ def run(chk):
     chk.assumptions += [
         "numeric strings count as numbers in sum/min/max/avg (the engine's ingest-time statistics do so); text values are ignored by them",
         "dc may count by spelling or by numeric value; list() is compared as a multiset; a row for events lacking the group field is optional",
-        "timestamps are distinct within the measure/group datasets (earliest/latest have no ties); all numbers are binary-exact",
+        "timestamps are distinct within the measure/group datasets (earliest/latest have no ties); numbers are thousandths, min/max/values compared bit-exactly against the nearest double",
         "time buckets: any alignment is accepted as long as the returned buckets are disjoint, aligned with each other and every event "
         "is counted in the one bucket whose span contains its timestamp",
     ]
